@@ -30,6 +30,12 @@ func C16Write(r *eng.Run) {
 	// After the failure the application may start over with ResetOp (which is
 	// not Reset: same destination, same writer, the error stays).
 	resetOp := r.T.Chance(sim.LHist, 1, 4)
+	// The writer may have had an earlier life on another connection in which
+	// an extension refused a frame; Reset made it as new (C18) for this one.
+	prior := resetOp && r.T.Bool(sim.LHist)
+	if prior {
+		r.Probe("writer_had_an_earlier_life_with_a_refusing_extension")
+	}
 	exec := func(failAt, failN int) *WRun {
 		rand.Seed(rseed)
 		p := NewPipe(r, nil)
@@ -37,6 +43,13 @@ func C16Write(r *eng.Run) {
 		p.FailOnce, p.NetErr, p.ShortErr = failOnce, netErr, shortErr
 		wr := &WRun{Cfg: cfg, Ops: ops, Pipe: p}
 		wr.W = NewW(cfg, p)
+		if prior {
+			wr.W.Reset(NewPipe(r, nil), cfg.State(), ws.OpCode(cfg.Op))
+			wr.W.SetExtensions(&failingExt{failAt: 0})
+			wr.W.Write([]byte("earlier"))
+			wr.W.Flush()
+			wr.W.Reset(p, cfg.State(), ws.OpCode(cfg.Op))
+		}
 		wr.MS = applyOptions(wr.W, cfg)
 		fired := -1
 		ExecHistory(r, wr, seed, func(i int) {
